@@ -221,6 +221,11 @@ def verify_into(ctx, files: list[str], targets: list[str] | None = None, *, time
     for oid in [oid for oid, o in index.items() if (o.fn, o.path) in dead]:
         del results[oid]
         del index[oid]
+    for t in [t for t in targets if t in per_fn]:
+        # obligations on unreachable paths hold vacuously and are not counted
+        if "obligations" in per_fn[t]:
+            per_fn[t]["obligations_generated"] = per_fn[t]["obligations"]
+            per_fn[t]["obligations"] = sum(1 for o in index.values() if o.fn == t)
 
     n_ok = 0
     for oid, r in results.items():
